@@ -36,22 +36,30 @@ PARTIAL = ('C03_roundtrip / C03_rewrite_identical keep the Lua object abstract (
            'cart, re-written identically); left: the parser accepts what the '
            'lexer accepts (Lua.from_lines also parses) - observed by the monitor on every case, not proved')
 TRUSTED = ['hand-written matchers for HEADER_VERSION_RE / SECTION_DELIM_RE (sources pinned; compared with re exhaustively on short strings)',
-           'gen/kernels_p8file.py: the statement sequence of P8Formatter.to_file and the dispatch of from_file as data']
+           'gen/kernels_p8file.py: the statement sequence of P8Formatter.to_file, the dispatch of from_file and its '
+           'fill-up loop for short sections as data']
 CLAIM = dict(
-    text=("Theorems C03_roundtrip, C03_rewrite_identical, C03_ended_flag, C03_roundtrip_lexer, C03_roundtrip_lexer_full, C03_roundtrip_lexer_dialect (Coq, closed under the global context) about a model "
-          "of P8Formatter.to_file / _get_raw_data_from_p8_file / from_file whose writer statement sequence, section dispatch "
+    text=("Theorems C03_roundtrip, C03_rewrite_identical, C03_ended_flag, C03_short_sections_padded, C03_roundtrip_lexer, C03_roundtrip_lexer_full, C03_roundtrip_lexer_dialect (Coq, closed under the global context) about a model "
+          "of P8Formatter.to_file / _get_raw_data_from_p8_file / from_file whose writer statement sequence, section dispatch, "
+          "the loop that fills short data sections up (with the default contents taken from the running code) "
           "and header strings are regenerated from p8.py on every run: for every cart (any bytes in the five regions, any label "
           "or none, any version >= 0, any echoed Lua text without a __section__-like line) the file is written, splits back into "
           "exactly the written lines, the lexer is handed exactly the echoed text with a missing final newline supplied, and the "
           "re-read cart has the same version, regions (music minus the one excepted bit) and label; re-writing it gives the "
-          "identical file. Built on the C15 (P8SCII/UTF-8) and C16 (per-section codecs) theorems. PARTIAL in one respect: the "
+          "identical file. C03_short_sections_padded: for a cart whose data regions stop early at a row boundary (the .p8 files "
+          "newer PICO-8 versions save leave out the empty tail of a section) the file spelling out just those rows reads back "
+          "with every region at full length - the rows present followed by the empty default (zeros; 41 42 43 44 per music "
+          "pattern) - about the code AFTER the fix: commit that fills short sections up in from_file. "
+          "Built on the C15 (P8SCII/UTF-8) and C16 (per-section codecs) theorems. PARTIAL in one respect: the "
           "Lua object is abstract in the theorems - that the sanity re-lex succeeds, that the echo writer's last chunk is not "
           "empty, and echo_stable (the re-read object echoes the text it was lexed from) are explicit hypotheses owed by the "
           "lexer stack (C06/C07); they are observed, not proved, in the abstract theorems; C03_roundtrip_lexer instantiates the Lua object with the lexer model and echo writer of C06/C07 and discharges them from Proofs/EchoStable.v (echo idempotence, also with the final newline supplied; no echoed line is empty), and C03_roundtrip_lexer_full also discharges the writer's sanity re-lex (for Lua objects without a lone-CR newline token), C03_roundtrip_lexer_dialect states it for carts whose code was lexed from a byte text of the reference dialect (written, read back, re-written identically, and the re-read cart is again lexed from a text of the dialect - by C06_relex_reference - so the trip iterates) with no lexer-side hypothesis, leaving the parser's acceptance (Lua.from_lines also parses) as the one thing observed rather than proved. Tie: model vs real to_file bytes and from_file results "
           "(regions, label, version, the lines handed to the lexer, exceptions on malformed files), the two header regex "
           "matchers vs re exhaustively on short strings, and holds_C03 (extracted from Spec/P8FileSpec.v) on the "
-          "implementation's own cart -> file -> cart' -> file'."),
-    note=("Trusted: Coq kernel+VM, gen/kernels_p8file.py (to_file statement sequence and from_file dispatch as data; fail-closed), "
+          "implementation's own cart -> file -> cart' -> file'; files with sections cut to k rows by the harness and "
+          "hand-written minimal carts: from_file vs the model's reader and holds_C03_short (the cart read is the cart the file "
+          "denotes by Spec/P8Format.v 'short sections')."),
+    note=("Trusted: Coq kernel+VM, gen/kernels_p8file.py (to_file statement sequence, from_file dispatch and fill-up loop as data; fail-closed), "
           "the hand-written regex matchers (sources pinned), readline/dict modelling, stdlib Decimal for int()/'%s', extraction, "
           "OCaml glue. The lexer/parser/echo writer are abstract (hypotheses named in the theorem statements)."),
     technique='Coq proof (round trip by induction over lines/sections on regenerated writer events; table side conditions by vm_compute) + correspondence + extracted monitor',
